@@ -27,6 +27,22 @@ impl Graveyard {
         self.connections.get(id)
     }
 
+    /// A shared group is dropped because its last connected member left: the sessions saved here
+    /// that belong to the group continue, when they resume, from where the group stopped reading
+    pub fn update_group_cursor(&mut self, group: &str, cursor: (u64, u64)) {
+        for saved in self.connections.values_mut() {
+            let Some(session) = saved.session_state.as_mut() else {
+                continue;
+            };
+
+            for request in session.tracker.data_requests.iter_mut() {
+                if request.group.as_deref() == Some(group) {
+                    request.cursor = cursor;
+                }
+            }
+        }
+    }
+
     /// Save connection tracker
     pub fn save_state(
         &mut self,
